@@ -122,7 +122,7 @@ func init() {
 		runW(c, g, r, "W", &wRootCfg{Name: "fixture root", Roots: []*ssa.Function{root}, LocalTypes: false,
 			RootParam: func(f *ssa.Function, i int) (wmask, bool) { return wNonFresh, true }})
 	}
-	registerFixture(fixtureCheck{Group: "w", Pkg: "w/bad", Run: w, Want: []string{"w/bad.eval:store#", "w/bad.eval:mapupdate#1", "w/bad.eval:mapupdate#2", "w/bad.helper:store#1"}})
+	registerFixture(fixtureCheck{Group: "w", Pkg: "w/bad", Run: w, Want: []string{"w/bad.eval:store#", "w/bad.eval:mapupdate#1", "w/bad.eval:mapupdate#2", "w/bad.helper:store#1", "w/bad.Node).label:store#1"}})
 	registerFixture(fixtureCheck{Group: "w", Pkg: "w/good", Run: w})
 
 	lock := func(c *Ctx, r *Result, key string) {
